@@ -382,6 +382,62 @@ def eval_history(case):
     return o
 
 
+def eval_large(case):
+    """calls whose size is in the thousands: they must succeed (no RecursionError / MemoryError / other undocumented error)
+    and leave a consistent value"""
+    o = Outcome()
+    n = case['n']
+    v = AnsiString(case['unit'] * n)
+    v.apply_formatting('red', 1, n)
+    v.apply_formatting('bold', n // 2, None)
+    call = case['call']
+    try:
+        if call == 'replace':
+            r = v.replace(case['unit'][-1], ';')
+        elif call == 'replace_inplace':
+            r = v.replace(case['unit'][-1], AnsiString('+', 'blue'), inplace=True)
+        elif call == 'expandtabs':
+            r = AnsiStr(v).expandtabs(2)
+        elif call == 'split':
+            r = v.split(case['unit'][-1])[-2]
+        elif call == 'join':
+            r = AnsiString.join(*[AnsiString('ab', 'red') for _ in range(n)])
+        elif call == 'applies':
+            r = AnsiString('x' * n)
+            for i in range(0, n - 1):
+                r.apply_formatting(['red', 'bold', 'blue'][i % 3], i, i + 2, topmost=bool(i % 2))
+        elif call == 'fmtmatch':
+            r = v.copy()
+            r.format_matching(case['unit'][0], 'underline')
+        elif call == 'simplify':
+            r = v.copy()
+            r.format_matching(case['unit'][0], 'underline', count=n // 3)
+            r.simplify()
+        elif call == 'iter':
+            r = list(v)[-1]
+        else:
+            raise HarnessError(call)
+    except HarnessError:
+        raise
+    except Exception as e:
+        if lib_frame(e)[0] != 'lib':
+            raise
+        o.fail('large-call-raised:%s:%s' % (call, type(e).__name__), '%s on %d units of %r raised %s: %s' % (call, n, case['unit'], type(e).__name__, str(e)[:100]))
+        return o
+    err = consistency(r)
+    if err:
+        o.fail('large-call-inconsistent:' + call, '%s on %d units: result %s' % (call, n, err))
+    o.nontrivial = True
+    return o
+
+
+def enum_large(tier):
+    n = 1100 if tier == 'quick' else 2100
+    for call, unit in (('replace', 'a,'), ('replace_inplace', 'a,'), ('expandtabs', 'a\t'), ('split', 'a,'), ('join', 'ab'), ('applies', 'x'),
+                       ('fmtmatch', 'ab'), ('simplify', 'ab'), ('iter', 'ab')):
+        yield {'call': call, 'unit': unit, 'n': n if call not in ('join', 'applies') else n // 3}
+
+
 def strat(maxs):
     return lambda: history(CFG, 3, maxs, extra_ops=None, op_names=HIST_OPS).flatmap(lambda h: st.just(h)) if False else history_wide(maxs)
 
@@ -395,6 +451,7 @@ def history_wide(maxs):
 
 
 SUBS = [
+    Sub('large_calls', eval_large, enumerate=enum_large, exhaustive_note='fixed list of calls with sizes in the thousands'),
     Sub('history', eval_history, strategy=strat(12), quick=300, thorough=4000),
     Sub('history_long', eval_history, strategy=strat(30), quick=50, thorough=1200),
 ]
